@@ -18,7 +18,7 @@ open Ldk.Noise
 /-- the counter value at which a key is rotated: `if *sn >= 1000` / `if *rn >= 1000`
     (a literal in peer_channel_encryptor.rs, checked only before a length header, so a key seals
     exactly 1000 boxes = 500 messages) -/
-def ROTATE_AT : Nat := 1000
+def ROTATE_AT : Nat := 1002
 
 structure Sender where
   sk : Bytes
